@@ -116,6 +116,21 @@ theorem C05_penalised_full_approxHess (c : Consts K) (x : Nat → K) (Ss : List 
       = penalisedFull (approxHess c x out0 All v) priorOfInput := by
   rw [approxHessPenFull_eq, length_mul_share Ss hn, approxHess_perm c x out0 h v]; rfl
 
+/-- the loop the driver executes on the per-subset products at one voxel is the model's full-data penalised Hessian product -/
+theorem C05_penFullAccumulate_is_hessTimesPenFull (c : Consts K) (img x : Nat → K) (priorOfInput nn out0 : K)
+    (Ss : List (List (Viewgram K))) (v : Nat) :
+    penFullAccumulate (Ss.map fun S => imageAt (hessContribs c img x S) v) priorOfInput nn out0
+      = hessTimesPenFull c img x priorOfInput nn out0 Ss v := by
+  unfold penFullAccumulate hessTimesPenFull hessTimes
+  rw [List.foldl_map]
+
+theorem C05_penFullAccumulate_is_approxHessPenFull (c : Consts K) (x : Nat → K) (priorOfInput nn out0 : K)
+    (Ss : List (List (Viewgram K))) (v : Nat) :
+    penFullAccumulate (Ss.map fun S => imageAt (ahessContribs c x S) v) priorOfInput nn out0
+      = approxHessPenFull c x priorOfInput nn out0 Ss v := by
+  unfold penFullAccumulate approxHessPenFull approxHess
+  rw [List.foldl_map]
+
 /-! ## "every legal number of subsets", "maximum segment … range", "TOF and non-TOF … with … proj-data … normalisation":
 what `set_up` makes of the configuration -/
 
